@@ -170,6 +170,24 @@ class DecoderTable:
         if self.msg is not None:
             self.msg_args, probs = bind_ctor(self.msg, msg_fields_order)
             self.problems.extend(probs)
+            # NMEA2000Message(..., fields=[NMEA2000Field(..), ..]): the list is the field sequence at construction; appends (if any) follow it
+            fl = self.msg_args.get('fields')
+            if fl is not None and fl[0] in ('list', 'tuple') and all(is_call_to(x, 'NMEA2000Field') for x in fl[1]):
+                pre = []
+                mline = self.ret[2] if self.ret else summary['line']
+                for x in fl[1]:
+                    args, probs = bind_ctor(x, field_order)
+                    self.problems.extend(f"line {mline}: {p}" for p in probs)
+                    pre.append({'ctor': x, 'args': {k: canon(v) for k, v in args.items()}, 'line': mline, 'guard': ()})
+                n_pre = len(pre)
+                self.rows = pre + self.rows
+                # positions recorded against the append sequence move behind the constructor's fields
+                self.stores = [(a, b, l, k + n_pre) for (a, b, l, k) in self.stores]
+                self.raises = [(g_, t_, l, k + n_pre) for (g_, t_, l, k) in self.raises]
+                self.asserts = [(t_, l, k + n_pre) for (t_, l, k) in self.asserts]
+                del self.msg_args['fields']
+                # the appended rows were checked against the constructor term including the list: compare owners without it
+                self.msg_has_ctor_fields = True
 
 class EncoderTable:
     """pieces OR-ed into the payload integer, in order"""
@@ -196,6 +214,17 @@ class EncoderTable:
             else:
                 self.other.append((ev, line))
         self.unconditional_raise = any(not g for g, _, _ in self.raises)
+
+def dataclass_defaults(cls_node):
+    """{field: default term} for the fields of a @dataclass that have a constant / enum-member default"""
+    import ast
+    out = {}
+    ex = sym.SymExec(ast.parse('def _f(): pass').body[0])
+    for n in cls_node.body:
+        if isinstance(n, ast.AnnAssign) and isinstance(n.target, ast.Name) and n.value is not None:
+            if isinstance(n.value, (ast.Constant, ast.Attribute)):
+                out[n.target.id] = ex.expr(n.value)
+    return out
 
 def dataclass_fields(cls_node):
     """field order of a @dataclass: annotated assignments in class body order"""
